@@ -78,9 +78,12 @@ def check(ctx):
            f"generic {pa.params} vs generic_numba {na_.params}", nontrivial=False)
     ys = [n for n in body_nodes(pa.node) if isinstance(n, ast.Yield)]
     aps = [n for n in body_nodes(na_.node) if isinstance(n, ast.Call) and isinstance(n.func, ast.Attribute) and n.func.attr == "append"]
-    t1 = norm(ys[0].value).replace("function(xg, **kwargs)", "function(xg)") if ys else None
+    t1 = norm(ys[0].value) if ys else None
     t2 = norm(aps[0].args[0]) if aps and aps[0].args else None
-    ok = t1 is not None and t1 == t2
+    from ..pattern import pmatch
+    b1 = pmatch("function(_G, **kwargs) if len(_G) >= nrequired else default", ys[0].value) if ys else None
+    b2 = pmatch("function(_G) if len(_G) >= nrequired else default", aps[0].args[0]) if aps and aps[0].args else None
+    ok = b1 is not None and b2 is not None
     ctx.ob("SIB-8", na_, f"{t1} vs {t2}", na_.node, ok,
            "both apply the function from nrequired elements on and yield the default otherwise" if ok else
            "generic and generic_numba apply different threshold/default logic", clause="same values, same missing-value positions")
@@ -89,29 +92,55 @@ def check(ctx):
            "generic twins iterate different group slices", nontrivial=False)
     # yield_groups twins
     yp, yn = repo.fn(f"{A.AGG}.yield_groups"), repo.fn(f"{A.AGG}.yield_groups_numba")
+    from ..pattern import alpha
+
     def skeleton(fn):
+        node = alpha(fn.node)
+        rets = [s for s in ast.walk(node) if isinstance(s, ast.Return) and isinstance(s.value, ast.Name)]
+        acc = rets[-1].value.id if rets else None
         out = []
-        for s in body_nodes(fn.node):
-            if not isinstance(s, ast.stmt):
-                continue
+        stack = list(reversed(node.body))
+        order = []
+        def walk(stmts):
+            for s in stmts:
+                order.append(s)
+                for f in ("body", "orelse"):
+                    if isinstance(getattr(s, f, None), list) and not isinstance(s, (ast.FunctionDef,)):
+                        walk(getattr(s, f))
+        walk(node.body)
+        for s in order:
             if isinstance(s, (ast.For, ast.While)):
                 out.append("LOOP " + (norm(s.target) + " in " + norm(s.iter) if isinstance(s, ast.For) else norm(s.test)))
             elif isinstance(s, ast.If):
                 out.append("IF " + norm(s.test))
             elif isinstance(s, ast.Expr) and isinstance(s.value, ast.Yield):
                 out.append("EMIT " + norm(s.value.value))
-            elif isinstance(s, ast.Expr) and isinstance(s.value, ast.Call) and norm(s.value.func) == "out.append":
+            elif isinstance(s, ast.Expr) and isinstance(s.value, ast.Call) and isinstance(s.value.func, ast.Attribute) \
+                    and s.value.func.attr == "append" and norm(s.value.func.value) == acc:
                 out.append("EMIT " + norm(s.value.args[0]))
             elif isinstance(s, ast.Expr) and isinstance(s.value, ast.Constant):
                 continue
             elif isinstance(s, ast.Return):
-                if norm(s) != "return out":
+                if not (isinstance(s.value, ast.Name) and s.value.id == acc):
                     out.append(norm(s))
-            elif norm(s) == "out = []":
+            elif isinstance(s, ast.Assign) and norm(s.targets[0]) == acc and norm(s.value) == "[]":
                 continue
             else:
-                out.append(norm(s).replace("is_na_numba(xij)", "NA(xij)").replace("xij.is_na()", "NA(xij)"))
-        return out
+                t = norm(s)
+                import re as _re
+                t = _re.sub(r"is_na_numba\((\w+)\)", r"NA(\1)", t)
+                t = _re.sub(r"(\w+)\.is_na\(\)", r"NA(\1)", t)
+                out.append(t)
+        # the accumulator shifts the canonical numbering of later locals: renumber by first use in the skeleton
+        import re as _re
+        names = {}
+        def ren(m):
+            k = m.group(0)
+            if k == acc:
+                return k
+            names.setdefault(k, f"w{len(names)}")
+            return names[k]
+        return [_re.sub(r"\bv\d+\b", ren, t) for t in out]
     a, b = skeleton(yp), skeleton(yn)
     ok = a == b and bool(a)
     ctx.ob("SIB-8", yn, "yield_groups == yield_groups_numba modulo yield/append and the NA test", yn.node, ok,
@@ -136,7 +165,9 @@ def check(ctx):
     # mode kernel counts over the whole group
     mk = repo.fn(f"{A.AGG}.mode_apply_numba")
     inner = [n for n in ast.walk(mk.node) if isinstance(n, ast.For) and isinstance(n.iter, ast.Call) and norm(n.iter.func) == "range"]
-    ok = len(inner) >= 2 and all(norm(n.iter) == "range(len(xg))" for n in inner)
+    outer = [n for n in ast.walk(mk.node) if isinstance(n, ast.For) and isinstance(n.iter, ast.Call) and norm(n.iter.func).startswith("yield_groups")]
+    gvar = norm(outer[0].target) if outer else "xg"
+    ok = len(inner) >= 2 and all(norm(n.iter) == f"range(len({gvar}))" for n in inner)
     ctx.ob("SIB-8", mk, f"count loops {[norm(n.iter) for n in inner]}", inner[0] if inner else mk.node, ok,
            "each element's occurrences are counted over the whole group, so argmax picks the first most frequent value like statistics.mode" if ok else
            "the occurrence count does not range over the whole group: with ties the accelerated mode picks another element than statistics.mode",
